@@ -127,6 +127,8 @@ def catalogue(kind):
     # blank lines and pretty-printed (multi-line) hostile messages: a line-oriented transport must not take them for EOF
     F.append(("blank-lines", "\n   \n\n", []))
     F.append(("pretty-printed-unknown-element", '<new%sVector device="DEV0" name="TGT">\n\n  %s\n\n</new%sVector>' % (NEWTAG[k], valid_child(k, "ZZ", 3)[0], NEWTAG[k]), []))
+    # a very long value (more than the stream reader's 64 KiB limit without any '>') in a write that names nothing
+    F.append(("huge-value-unknown-property", '<newTextVector device="DEV0" name="NOPE"><oneText name="A">%s</oneText></newTextVector>' % ("v" * 70000), []))
     # direct router calls only: the sender is not a registered client
     F.append(("enableBLOB-from-unregistered-sender", "@unregistered:<enableBLOB device=\"DEV0\">Also</enableBLOB>", []))
     F.append(("enableBLOB-without-sender", "@nosender:<enableBLOB device=\"DEV0\">Only</enableBLOB>", []))
@@ -215,6 +217,15 @@ class Session:
             lg.setLevel(lvl)
             logging.disable(dis)
         self.w.close()
+
+    def start_late_device(self, name):
+        from mc.gen import drivers as D
+
+        spec = dict(DP.deployment(variant="text", ndev=1)[0])
+        spec["name"] = name
+        cls, _defs = D.build_class(spec)
+        self.late = cls(router=self.w.router)
+        self.pump()
 
     def snapshot(self):
         out = []
@@ -416,6 +427,19 @@ def run_session(variant, transport, faults, slots, glued=False):
         xtail = s.output("X")[mark_x:]
         if "<def" not in xtail:
             fails.append(("request-not-answered", d0, "fault %s: the getProperties after the fault was not answered (%d chars of output)" % (fids, len(xtail))))
+        # 5. a driver named like the catalogue's unknown device starts only now: what the connection asks of it is served
+        #    (a refused message about a device that did not exist must leave nothing behind)
+        try:
+            s.start_late_device("NOPE")
+            mark_x = len(s.output("X"))
+            s.send('<getProperties version="1.7" device="NOPE"/>')
+            xtail = s.output("X")[mark_x:]
+            if "<def" not in xtail or 'device="NOPE"' not in xtail:
+                fails.append(("late-device-not-served", d0, "fault %s: a driver NOPE registered after the session does not answer the connection's getProperties" % fids))
+        except Exception as e:  # noqa
+            from mc import lib
+
+            fails.append(("late-device-not-served", d0 + "," + lib.exc_site(e), "fault %s: %r" % (fids, e)))
         errs = s.w.loop.collect_errors()
         if errs:
             fails.append(("loop-error", d0, "fault %s: %r" % (fids, [e.get("message") for e in errs][:3])))
